@@ -15,8 +15,20 @@
 /* pseudotcp.c statics: copied by the build script into ptcp_statics.inc from the current source */
 #include "ptcp_statics.inc"
 
+/* scripted local address list: 10.0.0.0 .. 10.0.0.63 (index = ip preference) */
+GList *nice_interfaces_get_local_ips (gboolean include_loopback)
+{
+  GList *l = NULL; int i;
+  for (i = 63; i >= 0; i--) l = g_list_prepend (l, g_strdup_printf ("10.0.0.%d", i));
+  return l;
+}
+#include "agent/conncheck.h"
+
+static void plist_free (GSList **l) { g_slist_free_full (*l, g_free); *l = NULL; }
+
 int main (void)
 {
+  GSList *plist = NULL; int controlling = 1;
   char line[1 << 16];
   char *w[MAXW];
   StunTimer timer;
@@ -27,7 +39,52 @@ int main (void)
     if (line[0] == '#' || line[0] == '\n') continue;
     n = split_words (line, w);
     if (n == 0) continue;
-    if (!strcmp (w[0], "reset")) { memset (&timer, 0, sizeof timer); puts ("reset"); }
+    if (!strcmp (w[0], "reset")) { memset (&timer, 0, sizeof timer); plist_free (&plist); controlling = 1; puts ("reset"); }
+    else if (!strcmp (w[0], "prio") && n == 10) {
+      /* prio ice|msice <type> <transport> <component> <turnIsUdp> <turnPref> <ipIndex> <reliable> <nat> */
+      NiceCandidate *c = nice_candidate_new (atoi (w[2]));
+      NiceCandidateImpl *ci = (NiceCandidateImpl *) c;
+      TurnServer turn; char ip[32]; guint32 pr;
+      memset (&turn, 0, sizeof turn);
+      c->transport = atoi (w[3]);
+      c->component_id = strtoul (w[4], NULL, 10);
+      turn.type = atoi (w[5]) ? NICE_RELAY_TYPE_TURN_UDP : NICE_RELAY_TYPE_TURN_TCP;
+      turn.preference = strtoul (w[6], NULL, 10);
+      if (c->type == NICE_CANDIDATE_TYPE_RELAYED) ci->turn = &turn;
+      g_snprintf (ip, sizeof ip, "10.0.0.%d", atoi (w[7]));
+      nice_address_set_from_string (&c->addr, ip);
+      nice_address_set_from_string (&c->base_addr, ip);
+      pr = !strcmp (w[1], "ice") ? nice_candidate_ice_priority (c, atoi (w[8]), atoi (w[9]))
+                                 : nice_candidate_ms_ice_priority (c, atoi (w[8]), atoi (w[9]));
+      printf ("%u\n", pr);
+      ci->turn = NULL;
+      nice_candidate_free (c);
+    }
+    else if (!strcmp (w[0], "plist") && n >= 2) {
+      GSList *i;
+      if (!strcmp (w[1], "add") && n == 4) {
+        CandidateCheckPair *p = g_new0 (CandidateCheckPair, 1);
+        guint32 lp = strtoul (w[2], NULL, 10), rp = strtoul (w[3], NULL, 10);
+        /* local/remote priorities are kept in two otherwise unused integer fields */
+        p->stream_id = lp; p->component_id = rp;
+        p->priority = controlling ? nice_candidate_pair_priority (lp, rp) : nice_candidate_pair_priority (rp, lp);
+        plist = g_slist_insert_sorted (plist, p, (GCompareFunc) conn_check_compare);
+      } else if (!strcmp (w[1], "switch")) {
+        controlling = !controlling;
+        for (i = plist; i; i = i->next) {
+          CandidateCheckPair *p = i->data;
+          p->priority = controlling ? nice_candidate_pair_priority (p->stream_id, p->component_id)
+                                    : nice_candidate_pair_priority (p->component_id, p->stream_id);
+        }
+        plist = g_slist_sort (plist, (GCompareFunc) conn_check_compare);
+      } else { puts ("bad-op"); continue; }
+      printf ("list");
+      for (i = plist; i; i = i->next) {
+        CandidateCheckPair *p = i->data;
+        printf (" %u:%u:%llu", p->stream_id, p->component_id, (unsigned long long) p->priority);
+      }
+      printf ("\n");
+    }
     else if (!strcmp (w[0], "timer") && n >= 3) {
       if (!strcmp (w[1], "start") && n == 5) {
         verif_now_us = strtoull (w[4], NULL, 10);
